@@ -180,6 +180,26 @@ func (c24) Gen(seed int64, tier string, emit func(any)) {
 			})
 		}
 	}
+	// long argument lists that reuse alias flags: the total number of alias hops in the list
+	// exceeds the number of table entries (the loop guard must be per argument, not per list)
+	for _, tbl := range [][][2]string{
+		{{"--bool", "bool"}, {"-b", "--bool"}},
+		{{"--verbose", "bool"}, {"-v", "--verbose"}, {"--count", "int"}},
+		{{"-a", "-b"}, {"-b", "-c"}, {"-c", "bool"}},
+		{{"--str", "str"}, {"-s", "--str"}},
+	} {
+		for reps := len(tbl); reps <= len(tbl)+4; reps++ {
+			var args []string
+			for k := 0; k < reps; k++ {
+				args = append(args, tbl[1][0])
+				if tbl[0][1] == "str" {
+					args = append(args, fmt.Sprintf("v%d", k))
+				}
+			}
+			emit(c24Case{Src: "alias-repeat", Table: tbl, Args: args})
+			emit(c24Case{Src: "alias-repeat", Allow: true, Table: tbl, Args: append(append([]string{}, args...), "rest")})
+		}
+	}
 	r := rand.New(rand.NewSource(seed))
 	for i := 0; i < nrand; i++ {
 		c24Random(r, emit)
